@@ -109,7 +109,7 @@ func main() {
 					if strings.HasSuffix(recv, "Cmd") && (d.Name.Name == "Run" || d.Name.Name == "Store") {
 						f.Methods[pkg+"."+recv+"."+d.Name.Name] = mode(body)
 					}
-					if pkg == "sqlx" && (d.Name.Name == "execTx" || d.Name.Name == "setNumConns" || d.Name.Name == "DataSource" || d.Name.Name == "applySettings") {
+					if pkg == "sqlx" && (d.Name.Name == "execTx" || d.Name.Name == "setNumConns" || d.Name.Name == "DataSource" || d.Name.Name == "applySettings" || d.Name.Name == "createSchema" || d.Name.Name == "init" || d.Name.Name == "Update" || d.Name.Name == "UpdateContext" || d.Name.Name == "View" || d.Name.Name == "ViewContext") {
 						f.Consts["sqlx.func."+d.Name.Name] = body
 					}
 				}
@@ -151,7 +151,7 @@ func main() {
 		file, err := parser.ParseFile(fset, "redka.go", src, 0)
 		if err == nil {
 			ast.Inspect(file, func(n ast.Node) bool {
-				if fd, ok := n.(*ast.FuncDecl); ok && (fd.Name.Name == "startBgManager" || fd.Name.Name == "Close" || fd.Name.Name == "new") {
+				if fd, ok := n.(*ast.FuncDecl); ok && (fd.Name.Name == "startBgManager" || fd.Name.Name == "Close" || fd.Name.Name == "new" || fd.Name.Name == "applyOptions" || fd.Name.Name == "Open" || fd.Name.Name == "OpenRead" || fd.Name.Name == "OpenDB" || fd.Name.Name == "OpenReadDB") {
 					f.Consts["redka.func."+fd.Name.Name] = exprText(fset, src, fd.Body)
 				}
 				return true
